@@ -243,5 +243,9 @@ def jobs(tier, seed):
     extra = [Job("C14_registry", src, [dict(name="registry exactness with two sandboxes", fn=check_registry, unwind=400)], native=False, flags=fl),
              Job("C14_recreate_cb", src, [dict(name="re-creation: callback registrations", fn=check_recreate_cb, unwind=400)], native=False, flags=fl),
              Job("C14_recreate_sym", src, [dict(name="re-creation: cached symbol addresses", fn=check_recreate_sym, unwind=400)], native=False, flags=fl)]
+    from specs import C13
+    extra.append(Job("C14_noop_recreate", C13.NOOP + '#include "C13_full.inc"\n', [dict(name="noop second incarnation (callbacks)", fn=C13.check_recreate, unwind=400)], native=False))
+    extra.append(Job("C14_dylib_recreate", C13.DYLIB + '#include "C13_full.inc"\n', [dict(name="dylib second incarnation (callbacks)", fn=C13.check_recreate, unwind=400)],
+                     native=False, flags=fl))
     return extra + [Job("C14_hist_%d" % f, src, [dict(name="lifecycle histories depth %d first op %d" % (depth, f), fn=check_hist, kw=dict(depth=depth, first=f), unwind=400)],
                 max_paths=400000, flags=fl) for f in range(NOPS)]
